@@ -340,6 +340,44 @@ Theorem attested_sale_not_repeated : forall (chain nonce contract : Z) (client :
 Proof. exact try_sale_not_repeated. Qed.
 Print Assumptions attested_sale_not_repeated.
 
+(** Second-round source facts: the collaborator calls the fault model numbers are the calls the
+    three keeper functions make through their interfaces, in this order (and the model makes as many:
+    the counters below are the model's, on successful runs); the funder loop has no early exit (the
+    LAST rich funder pays, whatever the comment says); what the legacy import and the genesis
+    functions call (nothing that moves coins or accounts; InitGenesis stores each licence under its
+    own ClientAddress; Validate checks Params only); TryAttestation writes the block height, the nonce
+    cursor and the observed flag before processAttestation, is called from attestationTally only,
+    which runs inside skyway's EndBlocker under a deferred recover. *)
+Theorem model_is_of_current_source_round2 :
+  Gen.C18.create_collab_calls = ["accountKeeper.AddressCodec"; "accountKeeper.HasAccount"; "accountKeeper.NewAccount";
+                                 "accountKeeper.SetAccount"; "bankKeeper.SendCoinsFromAccountToModule"]%string /\
+  Gen.C18.activate_collab_calls = ["accountKeeper.AddressCodec"; "accountKeeper.GetAccount"; "accountKeeper.SetAccount";
+                                   "bankKeeper.SendCoinsFromModuleToAccount"]%string /\
+  Gen.C18.sale_collab_calls = ["bankKeeper.HasBalance"; "k.CreateLightNodeClientLicense"; "accountKeeper.AddressCodec";
+                               "feegrantKeeper.GrantAllowance"]%string /\
+  snd (create_licence_f FErr 0 (1, false) (6, false) 0 10 1 ex_s0) = - Z.of_nat (List.length Gen.C18.create_collab_calls) /\
+  snd (activate_f FErr 0 (3, false) (run ex_s0 (firstn 4 ex_ops))) = - Z.of_nat (List.length Gen.C18.activate_collab_calls) /\
+  snd (sale_licence_f FErr 0 (4, true) 7 (run ex_s0 (firstn 4 ex_ops)))
+    = - (1 + Z.of_nat (List.length Gen.C18.create_collab_calls) + (Z.of_nat (List.length Gen.C18.sale_collab_calls) - 2)) /\
+  Gen.C18.funder_loop_exits_early = false /\
+  Gen.C18.funder_loop_body = "{ if k.bankKeeper.HasBalance(ctx, funders.Accounts[i], coin) { funder = funders.Accounts[i] } }"%string /\
+  Gen.C18.legacy_calls = ["LightNodeClientFeegranter"; "AllLightNodeClientLicenses"; "AllowancesByGranter"; "GetLightNodeClient"]%string /\
+  Gen.C18.set_legacy_calls = ["GetLegacyLightNodeClients"; "SetLightNodeClient"]%string /\
+  Gen.C18.legacy_licence_test = "license.ClientAddress == grant.Grantee"%string /\
+  Gen.C18.init_genesis_calls = ["SetParams"; "SetLightNodeClientLicense"; "SetLightNodeClientFeegranter";
+                                "SetLightNodeClientFunders"; "SetLightNodeClient"]%string /\
+  Gen.C18.export_genesis_calls = ["GetParams"; "AllLightNodeClientLicenses"; "LightNodeClientFeegranter";
+                                  "LightNodeClientFunders"; "AllLightNodeClients"]%string /\
+  Gen.C18.init_genesis_licence_args = "license.ClientAddress | license"%string /\
+  Gen.C18.genesis_validate_body = "{ return gs.Params.Validate() }"%string /\
+  Gen.C18.try_attestation_calls = ["SetLastObservedEthereumBlockHeight"; "setLastObservedSkywayNonce"; "SetAttestation";
+                                   "processAttestation"; "emitObservedEvent"]%string /\
+  Gen.C18.try_attestation_callers = ["attestationTally"]%string /\
+  Gen.C18.endblocker_defers_recover = true /\
+  Gen.C18.endblocker_calls = ["createBatch"; "attestationTally"; "pruneAttestations"]%string.
+Proof. exact source_round2. Qed.
+Print Assumptions model_is_of_current_source_round2.
+
 (** The model is the model of the source as it is now: constants, the order of the effect-bearing
     calls in the three keeper functions and in the sale handler, the expressions that fix the
     vesting schedule and who is activated, the commit discipline of processAttestation, and the
